@@ -70,6 +70,17 @@ CLAIMS = {
 }
 
 
+SUITE = {
+    "C02": ("assembly", "K of Elastic / Thermal / Beam simulations symmetric at every Assembly"),
+    "C03": ("assembly", "K, C, M, F of every Assembly equal the scatter-add of the element arrays built during that call"),
+    "C04": ("bc", "after every solve of a problem type the solution carries the prescribed Dirichlet values"),
+    "C11": ("law", "every freshly updated elastic law is symmetric, positive definite, C.S = I"),
+    "C12": ("fearray", "FeArray @ / dot / ddot between two fields equal the per-point product at sampled points, result typed as a field"),
+    "C14": ("stale", "matrices served from a simulation's cache equal those a deep copy told that everything changed assembles anew"),
+    "C19": ("integrate", "Behavior.Integrate leaves its arguments untouched, is finite where converged, never decreases p"),
+}
+
+
 def main():
     props = [json.loads(l) for l in open(os.path.join(ROOT, "properties.jsonl"))]
     checks, na, served = [], [], []
@@ -78,6 +89,10 @@ def main():
         have = os.path.exists(os.path.join(ROOT, "verifmon", "props", pid.lower() + ".py"))
         if have and pid in CLAIMS:
             text, note, tech = CLAIMS[pid]
+            if pid in SUITE:
+                text += ("; in addition the repository's own tests and example scripts run unedited (examples headless, drawing stubbed) with the global monitor '"
+                         + SUITE[pid][0] + "' installed on the real functions (" + SUITE[pid][1] + "): quick = short examples, thorough = test directories and example families")
+                tech += " + global invariant monitor over the repository's tests and example scripts as workload"
             served.append(pid)
             checks.append({
                 "property_id": pid,
